@@ -1,13 +1,14 @@
 /-
 Driver for C09.  Request line:   <op>|<arg>|<arg>|...
-  string argument  : space separated decimal code points (empty field = empty string)
+  string argument  : space separated decimal code points (empty field = empty string,
+                     `-` = the empty sequence where the signature says xs:string?)
   numeric argument : `nan` `inf` `-inf` or `<num>/<den>` (exact rational, den > 0)
   integer sequence : space separated (possibly negative) decimals
   case table       : comma separated `cp:cp cp ...` entries (upper-case / lower-case), then
                      for lower-case two more fields: cased code points, case-ignorable code points
 Answer:            <model value>|<spec value>
-  values: `S:<code points>`  `B:0|1`  `I:<int>`  `L:<ints>`  `ERR:<code>`
-ops: substring2 substring3 before after contains starts ends translate normalize concat join
+  values: `S:<code points>`  `B:0|1`  `I:<int>`  `L:<ints>` (`L:` = empty sequence)  `ERR:<code>`
+ops: substring2 substring3 before after contains starts ends translate translate1 normalize concat join
      length compare cpequal s2cp cp2s upper lower encode iri html
 -/
 import EPV.Proto
@@ -65,69 +66,91 @@ def tableFun (t : List (Nat × Str)) (c : Nat) : Str :=
   | some v => v
   | none => [c]
 
+/-- a string or `-` (the empty sequence) -/
+def parseOStr (s : String) : Option (Option Str) :=
+  if s.trimAscii.toString == "-" then some none else (parseNats s).map some
+
+def vOI : Option Int → String
+  | some i => vI i
+  | none => "L:"
+def vOB : Option Bool → String
+  | some b => vB b
+  | none => "L:"
+def vT : Except FOStrings.TypeErr Str → String
+  | .ok s => vS s
+  | .error .XPTY0004 => "ERR:XPTY0004"
+
 def pair (m s : String) : String := m ++ "|" ++ s
+
+abbrev md := Strings.argDefault
+abbrev sd := FOStrings.orEmpty
 
 def answer (line : String) : String :=
   match line.splitOn "|" with
   | "concat" :: args =>
-    match args.mapM parseNats with
-    | some l => pair (vS (Strings.concat l)) (vS (FOStrings.concat l))
+    match args.mapM parseOStr with
+    | some l => pair (vS (Strings.concat (l.map md))) (vS (FOStrings.concat (l.map sd)))
     | none => "bad-arg"
   | "join" :: sep :: items =>
-    match parseNats sep, items.mapM parseNats with
-    | some sep, some l => pair (vS (Strings.stringJoin l sep)) (vS (FOStrings.stringJoin l sep))
+    match parseOStr sep, items.mapM parseNats with
+    | some sep, some l => pair (vT (Strings.fnStringJoin l sep)) (vT (FOStrings.fnStringJoin l sep))
     | _, _ => "bad-arg"
   | ["substring2", s, a] =>
-    match parseNats s, parseNum a with
-    | some s, some a => pair (vS (Strings.substring2 s a)) (vS (FOStrings.substring2 s a))
+    match parseOStr s, parseNum a with
+    | some s, some a => pair (vS (Strings.substring2 (md s) a)) (vS (FOStrings.substring2 (sd s) a))
     | _, _ => "bad-arg"
   | ["substring3", s, a, b] =>
-    match parseNats s, parseNum a, parseNum b with
-    | some s, some a, some b => pair (vS (Strings.substring3 s a b)) (vS (FOStrings.substring3 s a b))
+    match parseOStr s, parseNum a, parseNum b with
+    | some s, some a, some b =>
+      pair (vS (Strings.substring3 (md s) a b)) (vS (FOStrings.substring3 (sd s) a b))
     | _, _, _ => "bad-arg"
-  | [op, s, t] =>
-    if op == "cp2s" || op == "upper" then
-      if op == "cp2s" then
-        match parseInts s with
-        | some l => if t == "" then pair (vE (Strings.codepointsToString l)) (vE (FOStrings.codepointsToString l)) else "bad-arg"
-        | none => "bad-arg"
-      else
-        match parseNats s, parseTable t with
-        | some s, some tb => pair (vS (Strings.upperCase (tableFun tb) s)) (vS (FOStrings.upperCase (tableFun tb) s))
-        | _, _ => "bad-arg"
-    else
-    match parseNats s, parseNats t with
-    | some s, some t =>
-      match op with
-      | "before" => pair (vS (Strings.substringBefore s t)) (vS (FOStrings.substringBefore s t))
-      | "after" => pair (vS (Strings.substringAfter s t)) (vS (FOStrings.substringAfter s t))
-      | "contains" => pair (vB (Strings.contains s t)) (vB (FOStrings.contains s t))
-      | "starts" => pair (vB (Strings.startsWith s t)) (vB (FOStrings.startsWith s t))
-      | "ends" => pair (vB (Strings.endsWith s t)) (vB (FOStrings.endsWith s t))
-      | "compare" => pair (vI (Strings.compare s t)) (vI (FOStrings.compare s t))
-      | "cpequal" => pair (vB (Strings.codepointEqual s t)) (vB (FOStrings.codepointEqual s t))
-      | _ => "bad-op"
+  | ["cp2s", l, _] =>
+    match parseInts l with
+    | some l => pair (vE (Strings.codepointsToString l)) (vE (FOStrings.codepointsToString l))
+    | none => "bad-arg"
+  | ["upper", s, t] =>
+    match parseOStr s, parseTable t with
+    | some s, some tb =>
+      pair (vS (Strings.upperCase (tableFun tb) (md s))) (vS (FOStrings.upperCase (tableFun tb) (sd s)))
     | _, _ => "bad-arg"
   | ["lower", s, t, cs, ig] =>
-    match parseNats s, parseTable t, parseNats cs, parseNats ig with
+    match parseOStr s, parseTable t, parseNats cs, parseNats ig with
     | some s, some tb, some cs, some ig =>
-      pair (vS (Strings.lowerCase (tableFun tb) cs.contains ig.contains s))
-        (vS (FOStrings.lowerCase (tableFun tb) cs.contains ig.contains s))
+      pair (vS (Strings.lowerCase (tableFun tb) cs.contains ig.contains (md s)))
+        (vS (FOStrings.lowerCase (tableFun tb) cs.contains ig.contains (sd s)))
     | _, _, _, _ => "bad-arg"
   | ["translate", s, m, t] =>
-    match parseNats s, parseNats m, parseNats t with
-    | some s, some m, some t => pair (vS (Strings.translate s m t)) (vS (FOStrings.translate s m t))
+    match parseOStr s, parseOStr m, parseOStr t with
+    | some s, some m, some t => pair (vT (Strings.fnTranslate false s m t)) (vT (FOStrings.fnTranslate s m t))
     | _, _, _ => "bad-arg"
+  | ["translate1", s, m, t] =>     -- XPath 1.0 / compatibility mode
+    match parseOStr s, parseOStr m, parseOStr t with
+    | some s, some m, some t => pair (vT (Strings.fnTranslate true s m t)) (vS (FOStrings.fnTranslate10 s m t))
+    | _, _, _ => "bad-arg"
+  | [op, s, t] =>
+    match parseOStr s, parseOStr t with
+    | some s, some t =>
+      match op with
+      | "before" => pair (vS (Strings.substringBefore (md s) (md t))) (vS (FOStrings.substringBefore (sd s) (sd t)))
+      | "after" => pair (vS (Strings.substringAfter (md s) (md t))) (vS (FOStrings.substringAfter (sd s) (sd t)))
+      | "contains" => pair (vB (Strings.contains (md s) (md t))) (vB (FOStrings.contains (sd s) (sd t)))
+      | "starts" => pair (vB (Strings.startsWith (md s) (md t))) (vB (FOStrings.startsWith (sd s) (sd t)))
+      | "ends" => pair (vB (Strings.endsWith (md s) (md t))) (vB (FOStrings.endsWith (sd s) (sd t)))
+      | "compare" => pair (vOI (Strings.noneIfEitherNone Strings.compare s t)) (vOI (FOStrings.lift2 FOStrings.compare s t))
+      | "cpequal" => pair (vOB (Strings.noneIfEitherNone Strings.codepointEqual s t))
+          (vOB (FOStrings.lift2 FOStrings.codepointEqual s t))
+      | _ => "bad-op"
+    | _, _ => "bad-arg"
   | [op, s] =>
-    match parseNats s with
+    match parseOStr s with
     | some s =>
       match op with
-      | "normalize" => pair (vS (Strings.normalizeSpace s)) (vS (FOStrings.normalizeSpace s))
-      | "length" => pair (vI (Strings.stringLength s)) (vI (FOStrings.stringLength s))
-      | "s2cp" => pair (vL (Strings.stringToCodepoints s)) (vL (FOStrings.stringToCodepoints s))
-      | "encode" => pair (vE (Strings.encodeForUri s)) (vE (FOStrings.encodeForUri s))
-      | "iri" => pair (vE (Strings.iriToUri s)) (vE (FOStrings.iriToUri s))
-      | "html" => pair (vE (Strings.escapeHtmlUri s)) (vE (FOStrings.escapeHtmlUri s))
+      | "normalize" => pair (vS (Strings.normalizeSpace (md s))) (vS (FOStrings.normalizeSpace (sd s)))
+      | "length" => pair (vI (Strings.stringLength (md s))) (vI (FOStrings.stringLength (sd s)))
+      | "s2cp" => pair (vL (Strings.stringToCodepoints (md s))) (vL (FOStrings.stringToCodepoints (sd s)))
+      | "encode" => pair (vE (Strings.encodeForUri (md s))) (vE (FOStrings.encodeForUri (sd s)))
+      | "iri" => pair (vE (Strings.iriToUri (md s))) (vE (FOStrings.iriToUri (sd s)))
+      | "html" => pair (vE (Strings.escapeHtmlUri (md s))) (vE (FOStrings.escapeHtmlUri (sd s)))
       | _ => "bad-op"
     | none => "bad-arg"
   | _ => "bad-line"
